@@ -80,13 +80,27 @@ One can reverse a captured panic stack trace as follows:
 				switch node := node.(type) {
 
 				// Replace names.
-				// TODO: do var names ever show up in output?
 				case *ast.FuncDecl:
 					addHashedWithPackage(node.Name.Name)
 				case *ast.TypeSpec:
 					addHashedWithPackage(node.Name.Name)
+				case *ast.ValueSpec:
+					// Package-level variables show up in "garble map",
+					// and in the symbol names printed by some tools.
+					for _, name := range node.Names {
+						obj, _ := tf.info.ObjectOf(name).(*types.Var)
+						if obj == nil || obj.Parent() != tf.pkg.Scope() || name.Name == "_" {
+							continue
+						}
+						addHashedWithPackage(name.Name)
+					}
 				case *ast.Field:
 					for _, name := range node.Names {
+						if _, ok := tf.info.ObjectOf(name).(*types.Func); ok {
+							// A method declared in an interface type.
+							addHashedWithPackage(name.Name)
+							continue
+						}
 						obj, _ := tf.info.ObjectOf(name).(*types.Var)
 						if obj == nil || !obj.IsField() {
 							continue
